@@ -27,6 +27,8 @@ func c12Addr0() sdk.ValAddress {
 		a := []byte("validator-0000000001")
 		b := sym.Bytes("addr", 3)
 		a[3], a[10], a[19] = b[0], b[1], b[2]
+		// validator addresses are distinct (the last byte is what tells the fixed ones apart)
+		sym.Assume(!(b[0] == 'i' && b[1] == '0' && (b[2] == '2' || b[2] == '3' || b[2] == '4')))
 		return sdk.ValAddress(a)
 	}
 	a := []byte("validator-0000000001")
